@@ -8,6 +8,55 @@ import json, os
 ROOT = os.path.dirname(os.path.dirname(os.path.abspath(__file__)))
 
 CHECKS = {
+    "C01": dict(
+        level="model_checking",
+        technique="TLA+ spec solver/Objective.tla (decorated objective + abstract DE and Nelder-Mead over a finite point set, all "
+                  "idempotent constraint tables, boxes, cost/penalty tables) model-checked by TLC; recorded executions of the "
+                  "real solvers and wrappers validated by TLC against solver/Trace_Objective.tla (code->spec) at every "
+                  "iteration boundary",
+        text="Design: TLC checks on Objective.tla (|Pt|=3, energies 0..2 and inf, all idempotent Cons, all boxes compatible "
+             "with Cons, NP=2, 1-2 iterations) that the reported best is an evaluated point carrying cost+penalty there, "
+             "every member's stored energy is the objective at the member, best <= initial guess and <= every member -- for "
+             "the DE abstraction and for Nelder-Mead with the rule 'constrain the best vertex before it is reported', and "
+             "REFUTES them for the rule found on the pinned tree ('constrain it at the next iteration').  Implementation: "
+             "700 (quick) / 8000 (thorough) seeded runs of DE, DE2, Nelder-Mead, Powell stepped with a snapshot after every "
+             "iteration plus 150/1200 runs of fmin, fmin_powell, diffev, diffev2, lattice, buckshot, on a catalogue of costs "
+             "(incl. array-valued + reducer, plateaus, inf walls), constraints (pure/in-place), penalties, boxes and "
+             "tight/clip modes, installed at the start or mid-run; the recorder logs every call of the user's cost with "
+             "flags computed from pristine copies; TLC accepts a trace only if every Call and Boundary event satisfies the "
+             "named clauses.",
+        note="trusted: TLC, the recorder harness/objrec.py (pristine copies of the user's functions, exact float comparison "
+             "through order-preserving ranks); C01 clauses are waived after a mid-run Set (stored energies belong to the "
+             "previous objective); premise: deterministic idempotent constraints compatible with the box; sparsity wrapper "
+             "and process maps not run",
+        design_ref="DESIGN.md section 4/C01"),
+    "C02": dict(
+        level="model_checking",
+        technique="same specs and pipeline as C01 (Objective / Trace_Objective); this check decides the clauses prefixed C02: plus "
+                  "the initial-points clause",
+        text="Design: NeverOutside (every logged call is inside the box) and BestInBox are invariants of Objective.tla under "
+             "TLC for all boxes and constraint tables.  Implementation: in every recorded run each Call event must be "
+             "inside the box in force at that moment as computed by the recorder from the numbers (ranges installed at "
+             "step 0 or mid-run, tight in {None,True,False} x clip in {None,True,False}, degenerate / one-sided / infinite "
+             "sides, constraints that move points, initial guesses outside the box), a finite reported best must lie in the "
+             "box when the ranges were in force from the first iteration, and SetRandomInitialPoints must stay in the "
+             "requested limits (200/2000 draws).",
+        note="trusted: TLC and the recorder; the randomising clip=False mode is checked for 'no call outside' only; set-ups "
+             "that raise before the first evaluation (symbolic bounds with infinite sides) are counted as refused, not judged",
+        design_ref="DESIGN.md section 4/C02"),
+    "C03": dict(
+        level="model_checking",
+        technique="same specs and pipeline as C01 (Objective / Trace_Objective); this check decides the clauses prefixed C03:",
+        text="Design: CallsConstrained and ReportedConstrained are invariants of Objective.tla for the DE abstraction and for "
+             "Nelder-Mead with 'constrain the best vertex before it is reported'; the pinned tree's rule is refuted by TLC. "
+             "Implementation: every Call event must be at a point the constraints in force leave unchanged (checked with a "
+             "pristine copy; pure and in-place constraint functions; pins, clamps, integer rounding, ties, "
+             "symbolic-generated; installed at step 0 or mid-run) and, with constraints from the first iteration, the "
+             "reported solution at EVERY iteration boundary (runs are stepped and stopped by small limits) must satisfy "
+             "them and carry the energy of that point.",
+        note="trusted: TLC and the recorder; the randomising clip=False range mode is excluded as in the statement; a run "
+             "that never finds a finite energy reports no solution (reported-solution clauses need a finite best energy)",
+        design_ref="DESIGN.md section 4/C03"),
     "C04": dict(
         level="model_checking",
         technique="TLA+ spec solver/Lifecycle.tla (public solver protocol as a state machine over counters) model-checked by TLC; "
